@@ -443,4 +443,23 @@ theorem construct_refines (kw : KwargsJ α) : Refines kw := by
       simp only [e1, bind_error]
       simp [Config.settings, toK, hk, Config.rsfOf, hs, errOf]
 
+/-! ### The flag form: `io.parse_cli_args` -/
+
+/-- the parsed namespace as the hand model's flags (the parser has already applied its defaults) -/
+def toFlags (ns : ArgsNS α) : Config.Flags α :=
+  { density := ns.density, rsf := some (rsfCode ns.real_space_function), rmax := some ns.Rmax, rpoints := some ns.Rpoints,
+    rdelta := ns.Rdelta, cutoff := ns.fourier_filter_cutoff, lorch := ns.lorch_flag, bcoh := some ns.bcoh_sqrd, btot := some ns.btot_sqrd,
+    lowq := ns.low_q_correction }
+
+/-- **Refinement of the flag form**: the keyword dictionary that the regenerated `parse_cli_args` builds is, read as the hand model reads it,
+    `Config.parseFlags` of the namespace (file list and stem name apart); the stem name and the merged-S(Q) offset/scale are passed on -/
+theorem parse_cli_args_refines (ns : ArgsNS α) :
+    toK (parse_cli_args ns) = { Config.parseFlags (toFlags ns) with stem := none, nFiles := 1 } ∧
+    ((parse_cli_args ns).Outputs.bind (·.StemName)) = some ns.stem_name ∧
+    ((parse_cli_args ns).Merging.map (·.opts)) = some { Y := some { Offset := some ns.merging.1, Scale := some ns.merging.2 } } := by
+  cases hd : ns.density <;> cases hr : ns.Rdelta <;>
+    simp [parse_cli_args, toK, toFlags, Config.parseFlags, hd, hr, toPy, cutoffPy]
+  all_goals (try (split <;> simp_all [toK, toPy, cutoffPy]))
+  all_goals (try (cases ns.fourier_filter_cutoff <;> simp [cutoffPy]))
+
 end RefineConfig
